@@ -24,6 +24,7 @@ int __real_cholmod_l_sdmult(cholmod_sparse *, int, double *, double *, cholmod_d
 int __real_cholmod_l_free_dense(cholmod_dense **, cholmod_common *);
 int __real_cholmod_l_start(cholmod_common *);
 // weak: the iteration counters must not break the build if a refactoring makes these internal functions static
+int __real_cholmod_l_reallocate_column(size_t j, size_t need, cholmod_factor *L, cholmod_common *c);
 cholmod_factor *__real_modify_factor(cholmod_sparse *, cholmod_factor *, long *, long *, long *, long *, long *, long *, long *, long *, int, cholmod_common *) __attribute__((weak));
 cholmod_dense *__real_cholesky_solve(cholmod_sparse *, cholmod_dense *, cholmod_common *, int, int) __attribute__((weak));
 cholmod_dense *__real_SuiteSparseQR_C_backslash_default(cholmod_sparse *, cholmod_dense *, cholmod_common *);
@@ -31,6 +32,7 @@ void *__real_malloc(size_t);
 void *__real_calloc(size_t, size_t);
 void *__real_realloc(void *, size_t);
 void __real_free(void *);
+extern uint64_t psv_refblas_calls;
 extern int psv_env_threads, psv_affinity_fails, psv_ncpus, psv_env_form, psv_env_style, psv_env_other;
 }
 
@@ -338,15 +340,27 @@ int __wrap_cholmod_l_free_dense(cholmod_dense **X, cholmod_common *c) {
 // kernels) by a flop heuristic. OpenBLAS kernels round differently depending on buffer alignment,
 // i.e. on heap history, which would make a run's floating-point results depend on what ran before
 // it in the same process. Force the simplicial code so that every number is a function of the plan.
+// (Since the fourth session the six BLAS/LAPACK routines CHOLMOD's supernodal code calls are the simulator's own
+// plain loops, sim/refblas.cpp, so a supernodal factorisation is reproducible too. The mode is a knob of the
+// plan: simplicial | auto (CHOLMOD's default: supernodal above 40 flops per entry of L) | supernodal.)
+int psv_cholmod_mode = CHOLMOD_SIMPLICIAL;
 int __wrap_cholmod_l_start(cholmod_common *c) {
 	int r = __real_cholmod_l_start(c);
-	c->supernodal = CHOLMOD_SIMPLICIAL;
+	c->supernodal = psv_cholmod_mode;
 	return r;
 }
 cholmod_factor *__wrap_modify_factor(cholmod_sparse *A, cholmod_factor *L, long *F, long *nF, long *Gs, long *nG, long *H1, long *nH1,
                                      long *H2, long *nH2, int verbose, cholmod_common *c) {
 	G.n_modify_factor++;
 	return __real_modify_factor(A, L, F, nF, Gs, nG, H1, nH1, H2, nH2, verbose, c);
+}
+// reach probe: recompute_factor grows single columns of the factor; when the factor's storage is exhausted
+// CHOLMOD moves its index and value arrays (pointers fetched earlier are then stale)
+int __wrap_cholmod_l_reallocate_column(size_t j, size_t need, cholmod_factor *L, cholmod_common *c) {
+	void *x0 = L ? L->x : nullptr, *i0 = L ? L->i : nullptr;
+	int r = __real_cholmod_l_reallocate_column(j, need, L, c);
+	if (G.ctx) { G.ctx->count("probe:factor_column_reallocated"); if (L && (L->x != x0 || L->i != i0)) G.ctx->count("probe:factor_storage_moved_by_column_growth"); }
+	return r;
 }
 cholmod_dense *__wrap_cholesky_solve(cholmod_sparse *AtA, cholmod_dense *Atb, cholmod_common *c, int verbose, int n_resolves) {
 	G.n_cholesky_solve++;
@@ -539,6 +553,30 @@ NnlsProblem make_nnls(const Json &d) {
 				for (int j = 0; j < 3; j++) { int gj = interleave ? j * nb + k : k * 3 + j; p.A[(size_t)gi * n + gj] = sc[i] * sc[j] * Ab[(size_t)i * 3 + j]; }
 			}
 		}
+		return p;
+	}
+	if (kind == "grid") {
+		// Normal equations of a tensor-product fit: A = T1 (x) T2 + ridge with banded T's (the sparsity a spline
+		// fit produces: sparse, with fill-in in its Cholesky factor), right-hand side with sign changes. n = p*q.
+		int pdim = 2; while (pdim * pdim < n) pdim++;
+		int p1 = std::max(2, pdim - (int)r.below(2)), p2 = std::max(2, (n + p1 - 1) / p1);
+		n = p1 * p2; p.n = n; p.m = 0;
+		auto band = [&](int sz, std::vector<double> &T) {
+			T.assign((size_t)sz * sz, 0);
+			int bw = 1 + (int)r.below(2);
+			double d0 = r.uniform(0.55, 0.8);
+			for (int i = 0; i < sz; i++) for (int j = 0; j < sz; j++) { int dd = std::abs(i - j); if (dd <= bw) T[(size_t)i * sz + j] = dd == 0 ? d0 : dd == 1 ? (1 - d0) / 2 * (bw == 1 ? 1.0 : 0.8) : (1 - d0) / 2 * 0.2; }
+		};
+		std::vector<double> T1, T2;
+		band(p1, T1); band(p2, T2);
+		p.A.assign((size_t)n * n, 0); p.b.assign((size_t)n, 0);
+		double ridge = std::pow(10.0, r.uniform(-4, -2));
+		for (int i1 = 0; i1 < p1; i1++) for (int i2 = 0; i2 < p2; i2++) for (int j1 = 0; j1 < p1; j1++) for (int j2 = 0; j2 < p2; j2++) {
+			int I = i1 * p2 + i2, J = j1 * p2 + j2;
+			p.A[(size_t)I * n + J] = T1[(size_t)i1 * p1 + j1] * T2[(size_t)i2 * p2 + j2] + (I == J ? ridge : 0);
+		}
+		double ph1 = r.uniform(0, 6.28), ph2 = r.uniform(0, 6.28), f1 = r.uniform(0.5, 3), f2 = r.uniform(0.5, 3), off = r.uniform(-0.3, 0.6);
+		for (int i1 = 0; i1 < p1; i1++) for (int i2 = 0; i2 < p2; i2++) p.b[(size_t)(i1 * p2 + i2)] = std::sin(f1 * i1 + ph1) * std::cos(f2 * i2 + ph2) + off + 0.2 * r.normal();
 		return p;
 	}
 	bool exact = (kind == "integer" || kind == "degenerate");
@@ -933,6 +971,11 @@ struct SchedHarness : Harness {
 			bool big = gen.chance(0.05);
 			if (big) { kind = "random"; n = 60 + (int)gen.below(61); workers = 1 + (int)gen.below(2); }
 			{
+				// normal equations with the sparsity of a tensor-product fit (own stream)
+				Rng gr(runseed, "grid_family");
+				if (!big && gr.chance(0.10)) { kind = "grid"; n = 6 + (int)gr.below(gr.chance(0.6) ? 20 : 60); }
+			}
+			{
 				// systems made of blocks on which the plain full exchange cycles (own stream)
 				Rng xc(runseed, "exchange_cycles");
 				if (!big && xc.chance(0.07)) { kind = "exchange_cycles"; n = 3 * (xc.chance(0.3) ? 1 + (int)xc.below(4) : 5 + (int)xc.below(8)); }
@@ -943,7 +986,7 @@ struct SchedHarness : Harness {
 				static const char *sv[] = {"block", "updown", "lh_normal", "lh_ls"};
 				std::string s = sv[gen.below(4)];
 				if (big) s = gen.chance(0.5) ? "updown" : "block";
-				if (s == "lh_ls" && (kind == "integer" || kind == "degenerate" || kind == "tie2" || kind == "exchange_cycles")) s = "lh_normal";
+				if (s == "lh_ls" && (kind == "integer" || kind == "degenerate" || kind == "tie2" || kind == "exchange_cycles" || kind == "grid")) s = "lh_normal";
 				prob["solver"] = Json(s);
 				static const double tols[] = {0, 0, 1e-10};
 				prob["lh_tol"] = Json(tols[gen.below(3)]);
@@ -1036,6 +1079,15 @@ struct SchedHarness : Harness {
 			// without either variable the worker count is the machine's CPU count
 			if (f == 4) plan["ncpus"] = Json(workers);
 		}
+		{
+			// CHOLMOD's factorisation strategy (own stream). A fit builds its own cholmod_common with the library's
+			// defaults, so only what those defaults can do is explored there; a caller of the solvers passes its own.
+			Rng cm(runseed, "cholmod_mode");
+			int w = (int)cm.below(100);
+			const char *mode = w < 45 ? "simplicial" : w < 80 ? "auto" : "supernodal";
+			if (depth == "fit" && w >= 80) mode = "auto";
+			plan["cholmod"] = Json(mode);
+		}
 		plan["schedule"] = gen_sched(knob, workers, est_len);
 		plan["cross_workers"] = Json(depth == "fit" && knob.chance(0.25));
 		return plan;
@@ -1093,6 +1145,12 @@ struct SchedHarness : Harness {
 			psv_env_other = (int)plan["env"].geti("other", 1);
 			ctx.count("env:" + f);
 		}
+		{
+			std::string cm = plan.gets("cholmod", "simplicial");
+			psv_cholmod_mode = cm == "auto" ? CHOLMOD_AUTO : cm == "supernodal" ? CHOLMOD_SUPERNODAL : CHOLMOD_SIMPLICIAL;
+			ctx.count("cholmod:" + cm);
+		}
+		uint64_t blas0 = psv_refblas_calls;
 		Race::enable(true);
 		ctx.crumb("exec|%s|workers=%d", depth.c_str(), workers);
 		ctx.log.ev("plan depth=%s workers=%d policy=%s", depth.c_str(), workers, sc.policy.c_str());
@@ -1103,6 +1161,8 @@ struct SchedHarness : Harness {
 		else if (depth == "block3" || depth == "plain") exec_nnls(plan, prob, sc, ctx, prop);
 		else exec_fit(plan, prob, sc, ctx, prop);
 		if (G.cref_started) { cholmod_l_finish(&G.cref); G.cref_started = false; }
+		if (psv_refblas_calls != blas0) { ctx.count("probe:supernodal_factorisation_ran"); ctx.count("refblas_calls", (int64_t)(psv_refblas_calls - blas0)); }
+		psv_cholmod_mode = CHOLMOD_SIMPLICIAL;
 		G.ctx = nullptr;
 		psv_env_threads = 0;
 	}
@@ -1314,7 +1374,18 @@ struct SchedHarness : Harness {
 		uint64_t n = fr.naxes[md], st = fr.strides[md];
 		size_t total = fr.coef.size();
 		double cmax = 0;
-		for (float v : fr.coef) { if (!std::isfinite(v)) { ctx.violate("C10|nonfinite_coefficient|fit", "a fitted coefficient is not finite"); return; } cmax = std::max(cmax, (double)std::fabs(v)); }
+		for (float v : fr.coef) {
+			if (!std::isfinite(v)) {
+				// what kind of system it was: factorisation strategy, where the penalty sits, how heavy it is
+				double smax = 0, smono = p.smoothing.size() > 1 ? p.smoothing[md] : (p.smoothing.empty() ? 0 : p.smoothing[0]);
+				for (double sv : p.smoothing) smax = std::max(smax, sv);
+				std::string pen = smax == 0 ? "unpenalised" : (p.smoothing.size() > 1 && smono == 0) ? "monodim_unpenalised" : "monodim_penalised";
+				std::string heavy = smax >= 1e5 ? "smooth>=1e5" : smax >= 1e3 ? "smooth>=1e3" : smax >= 1e1 ? "smooth>=1e1" : "smooth<1e1";
+				ctx.violate(std::string("C10|nonfinite_coefficient|fit|") + (psv_cholmod_mode == CHOLMOD_SIMPLICIAL ? "simplicial" : "supernodal_allowed") + "|" + pen + "|" + heavy, "a fitted coefficient is not finite");
+				return;
+			}
+			cmax = std::max(cmax, (double)std::fabs(v));
+		}
 		for (size_t base = 0; base < total; base++) {
 			if ((base / st) % n != 0) continue;          // only slice origins along monodim
 			if (fr.coef[base] < 0) {
@@ -1418,6 +1489,7 @@ struct SchedHarness : Harness {
 		if (plan["problem"].has("n") && plan["problem"].geti("n") > 1) { Json c = plan; c["problem"]["n"] = Json(plan["problem"].geti("n") - 1); out.push_back(c); }
 		if (plan["problem"].geti("extra") > 0) { Json c = plan; c["problem"]["extra"] = Json(0); out.push_back(c); }
 		if (plan.getb("affinity_fails")) { Json c = plan; c["affinity_fails"] = Json(false); out.push_back(c); }
+		if (plan.gets("cholmod", "simplicial") != "simplicial") { Json c = plan; c["cholmod"] = Json("simplicial"); out.push_back(c); }
 		if (plan.has("env") && (plan["env"].gets("form", "both") != "both" || plan["env"].geti("style", 0))) { Json c = plan; c.erase("env"); out.push_back(c); }
 		if (plan.geti("ncpus", 0) > 0 && plan["env"].gets("form", "both") != "neither") { Json c = plan; c["ncpus"] = Json(0); out.push_back(c); }
 		if (plan.getb("cross_workers")) { Json c = plan; c["cross_workers"] = Json(false); out.push_back(c); }
